@@ -392,7 +392,7 @@ func (g *gen) resolveType(te *TypeExpr, pkgPath string, imports map[string]strin
 		return xtOf(types.NewStruct(nil, nil)), nil
 	case "func":
 		return XT{S: "Ref", T: types.NewSignatureType(nil, nil, nil, nil, nil, false)}, nil
-	case "Int", "Bool", "Ref", "Str", "Slice", "Iface":
+	case "Int", "Bool", "Ref", "Str", "Slice", "Iface", "Bytes":
 		return XT{S: name}, nil
 	}
 	if i := strings.Index(name, "."); i >= 0 {
@@ -854,6 +854,29 @@ func (e *env) trCall(x *ECall) (Val, XT, error) {
 	case "emptyset", "emptymap":
 		// emptyset(K) / emptymap(K,V) are typed by context: need explicit sorts as string args
 		return nil, XT{}, e.errf("%s not supported; compare via forall", x.Fn)
+	case "contents":
+		v, xt, err := argv(0)
+		if err != nil {
+			return nil, XT{}, err
+		}
+		if xt.S != "Slice" {
+			return nil, XT{}, e.errf("contents() of non-slice")
+		}
+		return g.bytesOf(e.st, v), XT{S: "Bytes"}, nil
+	case "b2s":
+		v, _, err := argv(0)
+		if err != nil {
+			return nil, XT{}, err
+		}
+		g.c.declareFun("b2s", []string{"Bytes"}, "Str")
+		return app("b2s", v), xtStr, nil
+	case "s2b":
+		v, _, err := argv(0)
+		if err != nil {
+			return nil, XT{}, err
+		}
+		g.c.declareFun("s2b", []string{"Str"}, "Bytes")
+		return app("s2b", v), XT{S: "Bytes"}, nil
 	case "deref":
 		v, xt, err := argv(0)
 		if err != nil {
